@@ -174,8 +174,10 @@ def run(spec, ctx):
     for i in range(spec['n']):
         rng = random.Random(f'C03/{spec["seed"]}/{spec["shard"]}/{i}')
         caps = 4 if i % 5 == 0 else None        # capacity 4 + XOR-rich circuits provoke overflow
-        case = WC.gen_case(rng, xor_rich=True if i % 5 == 0 else None, caps=caps)
-        case['epochs'] = rng.choice([1, 1, 2, 3])
+        case = WC.gen_case(rng, xor_rich=True if i % 5 == 0 else None, caps=caps, large=(i == 1))
+        case['epochs'] = rng.choice([1, 1, 2, 3]) if i != 1 else 1
+        if i == 1:
+            ctx.count('large_cases')
         check_case(case, ctx)
     for i in range(spec['drv']):
         rng = random.Random(f'C03d/{spec["seed"]}/{spec["shard"]}/{i}')
